@@ -284,7 +284,11 @@ Definition instantiate (M : list mdef) (m : nat) (acts : list term) (pre : list 
       end
   end.
 
-(* body_item_expand_macros(bi, macros, gensym, depth, _) *)
+(* body_item_expand_macros(bi, macros, gensym, depth, _).
+   ORDER of the invocation arm, as in the code: substitute, expand the nested invocations of the substituted body
+   (recursively, threading the GenSym), and only THEN rename the variables originating in this macro's body — the bound
+   variables are collected from the fully expanded items, so a local that only nested invocations bind is found
+   (wf_def_bound / xbv_item below; the swapped order is MacroRefuted.expand_item_early, which is not hygienic). *)
 Fixpoint expand_item (depth : nat) (M : list mdef) (it : item) (g : gensym) : res (list item * gensym) :=
   match depth with
   | O => Err ERecursive
